@@ -180,7 +180,7 @@ def gen_special(rng, k):
     bypp = bpp // 8
     W, H = rng.choice([1, 8, 16, 17, 40, 65]), rng.choice([1, 8, 16, 17, 40])
     which = rng.choice(["ultrazip", "ultrazip", "tight_rows", "tight_nozlib", "tight_pal", "tight_wide", "trle_rle", "zrle_short",
-                        "zrle_types", "zrle_exact", "tight_jpeg", "tight_jpeg", "tile_seq", "tile_seq", "tile_seq", "corre_count", "rre_count", "hextile_sub", "resize", "cursor", "lengths", "raw_big", "copy_oob",
+                        "zrle_types", "zrle_exact", "zero_dim", "zero_dim", "zero_dim", "tight_jpeg", "tight_jpeg", "tile_seq", "tile_seq", "tile_seq", "corre_count", "rre_count", "hextile_sub", "resize", "cursor", "lengths", "raw_big", "copy_oob",
                         "cursor_trunc", "cursor_trunc", "trunc_large", "trunc_large"])
     L = ["case %d special:%s %s %dx%d" % (k, which, fmtname, W, H)]
     tags = ["special." + which]
@@ -274,6 +274,35 @@ def gen_special(rng, k):
         kk = max(0, room - r * (cpx + 1))
         t1 = "80" + (rb(cpx) + "00") * r + rb(cpx) + "ff" * kk + "00"
         L += ["b 00000001", "b " + hdr(0, 0, W, H, 16), "z 0 1 1 " + t1 + t2]
+    elif which == "zero_dim":
+        # rectangles of width 0 and / or height 0 at every position the 'Rect too large' test lets through (x = W, y = H
+        # included), for EVERY decoder, with a payload the decoder accepts as far as it reads one
+        enc, ename = rng.choice([(0, "raw"), (1, "copyrect"), (2, "rre"), (4, "corre"), (5, "hextile"), (6, "zlib"), (7, "tight"),
+                                 (9, "ultra"), (15, "trle"), (16, "zrle"), (17, "zywrle"), (0xffff0009, "ultrazip")])
+        x, y, w, h = rng.choice([(W, 0, 0, H), (W, rng.randrange(H), 0, H - 0) , (0, H, W, 0), (W, H, 0, 0), (0, 0, 0, H), (0, 0, W, 0),
+                                 (rng.randrange(W + 1), rng.randrange(H + 1), 0, 0), (W, 0, 0, 1), (W - 1, H - 1, 0, 1), (W, H - 1, 0, 1)])
+        if y + h > H:
+            h = H - y
+        L[0] = "case %d special:%s %s %dx%d %s %d,%d,%d,%d" % (k, which, fmtname, W, H, ename, x, y, w, h)
+        L += ["b 00000001", "b " + hdr(x, y, w, h, enc)]
+        if ename == "tight":
+            ctl = rng.choice(["00", "4000", "4002", "4002", "4002", "4001" + "01" + rb(2 * (3 if fmtname in ("rgb888", "bgr888", "rgb888up") else bypp)),
+                              "80" + rb(3 if fmtname in ("rgb888", "bgr888", "rgb888up") else bypp), "0f", "44" + "02"])
+            L.append("b " + ctl)
+        elif ename in ("zlib", "zrle", "zywrle"):
+            L.append("z 0 1 1 " + rb(rng.choice([0, 1, 4])))
+        elif ename in ("ultra", "ultrazip"):
+            L.append("l " + rb(rng.choice([0, 4, 12])))
+        elif ename == "copyrect":
+            L.append("b " + be16(rng.choice([0, W - 1, W])) + be16(rng.choice([0, H - 1, H])))
+        elif ename in ("rre", "corre"):
+            n = rng.choice([0, 1, 2])
+            L.append("b " + be32(n) + rb(bypp) + "".join(rb(bypp) + (be16(0) * 4 if ename == "rre" else "00000000") for _ in range(n)))
+        elif ename == "hextile":
+            L.append("b " + rb(rng.choice([0, 1, 4])) if rng.random() < 0.5 else "b 02" + rb(bypp))
+        elif ename == "trle":
+            L.append("b " + rng.choice(["00", "01" + rb(4), "80" + rb(5), "7f", "02" + rb(8)]))
+        L.append("b 02")                      # a bell behind the rectangle: is the stream still in step?
     elif which == "tight_jpeg":
         # Tight JPEG rectangles (real JPEG images from corpus/C08/jpeg_WxH.hex): image as large as, larger or smaller than
         # the rectangle, rectangles beyond the 102400 pixels whose RGB form fits client->buffer, truncated / corrupt data
@@ -480,6 +509,44 @@ def gen_mutated(ctx, k):
     return c
 
 
+def auth_payload(rng, t, rb, focus=False):
+    """the server's side of the sub-negotiation of security type t, with hostile counts and lengths"""
+    u32 = lambda v: (v & 0xffffffff).to_bytes(4, "big")
+    if t == 19:                                            # VeNCrypt: version, ack, list of 32-bit sub-types
+        out = bytearray(rng.choice([b"\x00\x02"] * (30 if focus else 6) + [b"\x00\x01", b"\x01\x02", b"\x00\x00", b"\xff\xff"]))
+        out.append(rng.choice([0] * (20 if focus else 4) + [1, 255]))       # 0 = version accepted
+        n = rng.choice([0, 1, 2, 5, 39, 40, 41, 50, 64, 100, 128, 254, 255])
+        if focus and rng.random() < 0.5:
+            n = rng.choice([38, 39, 40, 41, 42, 45, 46, 50, 56, 64, 100, 200, 255])   # around a 500-character list of values
+        out.append(n)
+        kind = rng.random()
+        for i in range(n):
+            if kind < 0.6:                                 # nothing the client supports: every entry goes into the log line
+                v = rng.choice([0, 3, 4, 19, 265, 1000, 99999, 0x7fffffff, 0x80000000, 0xffffffff, rng.getrandbits(32)])
+                if focus and kind < 0.3:
+                    v = rng.choice([0x7fffffff, 0x80000000, 0x80000001, 0xfffffffe, 1000000000 + rng.getrandbits(28)])   # 10-11 characters each
+            elif kind < 0.8:                               # a supported plain type somewhere in a long list
+                v = rng.choice([1, 2, 256]) if i == n // 2 else rng.choice([0, 3, 0xffffffff, rng.getrandbits(32)])
+            else:                                          # TLS / X509 / SASL sub-types
+                v = rng.choice([257, 258, 259, 260, 261, 262, 263, 264, 1, 2, 256, rng.getrandbits(32)])
+            out += u32(v)
+        if rng.random() < 0.3:
+            out = out[:rng.randrange(len(out) + 1)]
+        return bytes(out)
+    if t == 30:                                            # Apple Remote Desktop: generator, key length, prime, peer key
+        kl = rng.choice([0, 1, 2, 8, 16, 128, 256, 1024, 65535])
+        return b"\x00\x02" + kl.to_bytes(2, "big") + rb(min(kl, 300)) + rb(min(kl, 300))
+    if t == 113:                                           # UltraVNC MS-Logon II: generator, modulus, response (64 bit each)
+        return rng.choice([rb(24), b"\0" * 24, b"\xff" * 24, rb(8) + b"\0" * 8 + rb(8), rb(10)])
+    if t == 20:                                            # SASL: mechanism list
+        n = rng.choice([0, 1, 5, 99, 100, 101, 300, 0x100000, 0xffffffff])
+        mech = rng.choice([b"PLAIN", b"ANONYMOUS", b"DIGEST-MD5,PLAIN", rb(min(n, 300))])
+        return u32(n) + (mech + b"\0" * 300)[:min(n, 300)]
+    if t == 18:                                            # anonymous TLS: whatever follows is fed to the TLS handshake
+        return rb(rng.choice([0, 5, 100]))
+    return b""
+
+
 def gen_handshake(rng, k):
     """stream B: mutated handshakes and garbage after a valid handshake (implementation only)"""
     fmtname = rng.choice(list(C07.FORMATS))
@@ -487,10 +554,26 @@ def gen_handshake(rng, k):
     rb = lambda n: bytes(rng.getrandbits(8) for _ in range(n))
     ver = rng.choice([b"RFB 003.008\n", b"RFB 003.007\n", b"RFB 003.003\n", b"RFB 003.889\n", b"RFB 004.001\n", b"RFB 003.005\n",
                       b"RFB 003.016\n", b"RFB 000.000\n", b"RFB 999.999\n", b"XYZ 003.008\n", rb(12), b"RFB 003.008", b""])
+    if rng.random() < 0.4:
+        # a negotiation that gets as far as the scheme's own sub-protocol: valid version, the scheme offered alone
+        # (or after types the client does not know), its payload with hostile counts / lengths
+        ver = rng.choice([b"RFB 003.008\n", b"RFB 003.008\n", b"RFB 003.007\n", b"RFB 003.889\n"])
+        t0 = rng.choice([19, 19, 19, 19, 30, 113, 20, 18, 2])
+        pre = [rng.choice([0xfe, 17, 99]) for _ in range(rng.choice([0, 0, 1, 3]))]
+        body = bytearray(ver) + bytes([len(pre) + 1]) + bytes(pre) + bytes([t0]) + auth_payload(rng, t0, rb, focus=True)
+        body += rng.choice([rb(16), b""]) + rng.choice([0, 0, 1]).to_bytes(4, "big") + rb(rng.choice([0, 24, 60]))
+        L = ["case %d handshake %s auth%d" % (k, fmtname, t0), "hsraw %s | %s" % (" ".join(map(str, fmt)), bytes(body).hex()),
+             "dump 0", "seg " + " ".join(map(str, C07.gen_seg(rng))), "run"]
+        return dict(tok=L, tags=["handshake", "handshake.auth%d" % t0], kind="implonly")
     body = bytearray(ver)
     minor3 = ver.startswith(b"RFB 003.003")
     if minor3:
-        body += (rng.choice([0, 1, 2, 5, 16, 0xffffffff])).to_bytes(4, "big")
+        sch = rng.choice([0, 1, 2, 5, 16, 0xffffffff, 0xfffffffa, 0xfffffffa, 30, 113, 19])
+        body += sch.to_bytes(4, "big")
+        if sch == 0xfffffffa:                                  # MS-Logon (3.3 only): generator, modulus, response
+            body += rng.choice([rb(24), b"\0" * 24, rb(8) + b"\0" * 8 + rb(8), b"\xff" * 24])
+        else:
+            body += auth_payload(rng, sch, rb)
     else:
         nt = rng.choice([0, 1, 2, 5, 255])
         body.append(nt)
@@ -499,7 +582,11 @@ def gen_handshake(rng, k):
             body += n.to_bytes(4, "big") + rb(min(n, 300))
         else:
             types = [rng.choice([1, 1, 2, 2, 5, 16, 17, 18, 19, 20, 30, 113, 129, 0xfe, 0xff]) for _ in range(nt)]
+            if rng.random() < 0.5:
+                # put one of the schemes with a negotiation of its own first: the client takes the first type it knows
+                types[0] = rng.choice([19, 19, 19, 30, 113, 20, 18, 2])
             body += bytes(types)
+            body += auth_payload(rng, types[0], rb)
     body += rng.choice([rb(16), b""])                      # a VncAuth challenge (or nothing)
     res = rng.choice([0, 0, 0, 1, 2, 7, 0xffffffff])
     body += res.to_bytes(4, "big")
@@ -560,16 +647,24 @@ def cause_of(verdict):
     if len(p) < 2 or p[1] == "ok":
         return None
     if p[1] != "asan":
+        if p[1] == "signal" and "Fatal_error:" in verdict:
+            return "dh_params_abort"            # libgcrypt: "Fatal error: divide by zero" / "Invalid argument", abort()
         return " ".join(p[1:3])
     kind, rw, fns = p[2], p[3], p[4] if len(p) > 4 else "-"
     # the classes of known_findings.d/C08.json are tied to the function AND to the access kind of the
     # confirmed defect: anything else in the same function is a different failure
+    if kind == "FPE" and "rfbPowM64" in verdict or kind == "FPE" and "rfbMulM64" in verdict:
+        return "dh_params_abort"
     if "HandleUltraZip" in fns and rw == "READ":
         return "ultrazip_walk"
     if "HandleUltraZip" in fns and "lzo1x_decompress" in fns and kind == "SEGV":
         return "ultrazip_int_overflow"
     if "DecompressJpegRect" in fns:
         return "tight_jpeg16_overflow"
+    if "FilterGradient" in fns and rw == "WRITE" and kind in ("heap-buffer-overflow", "use-after-poison") and (FIXMASK & 2):
+        # with the row-count check of 0870444 in place the gradient filter only leaves the framebuffer through the
+        # unconditional first-pixel store of a zero-width rectangle
+        return "tight_gradient_w0"
     if "FilterGradient" in fns and kind == "stack-buffer-overflow":
         return "tight_wide_gradient"
     if ("Filter" in fns or "HandleTight" in fns) and kind in ("heap-buffer-overflow", "use-after-poison"):
@@ -587,7 +682,7 @@ def cause_of(verdict):
     return "other:%s:%s:%s" % (kind, rw, fns.split("<")[0])
 
 
-OOB_CAUSE = {45: "ultrazip_int_overflow", 40: "ultrazip_walk", 41: "ultrazip_walk", 77: "tight_extra_rows", 78: "tight_wide_gradient", 73: "tight_wide_gradient",
+OOB_CAUSE = {79: "tight_gradient_w0", 45: "ultrazip_int_overflow", 40: "ultrazip_walk", 41: "ultrazip_walk", 77: "tight_extra_rows", 78: "tight_wide_gradient", 73: "tight_wide_gradient",
              76: "tight_wide_gradient", 70: "tight_wide_gradient", 74: "tight_buffer_overread", 75: "tight_extra_rows",
              72: "tight_extra_rows", 50: "trle_rle_overflow", 51: "trle_rle_overflow", 52: "trle_rle_overflow",
              53: "trle_rle_overflow", 55: "trle_rle_overflow", 31: "zrle_overread", 32: "zrle_overread", 33: "zrle_overread",
@@ -607,7 +702,7 @@ def oob_cause(code):
 
 WITNESSES = [("w_ultrazip.script", 0), ("w_tightrows.script", 1), ("w_tightgrad.script", 2), ("w_tightnoz.script", 3),
              ("w_trle.script", 4), ("w_zrleneg.script", 5), ("w_zrlepal.script", 6),
-             ("w_zrle_cpixel24.script", 8), ("w_ultrazip_hugew.script", 9)]
+             ("w_zrle_cpixel24.script", 8), ("w_ultrazip_hugew.script", 9), ("w_tightgrad_w0.script", 10)]
 
 
 def with_fixed(tok, mask):
@@ -707,7 +802,8 @@ def check(ctx):
         for fn in sorted(os.listdir(cdir)):
             if fn.endswith(".script"):
                 lines = [l for l in open(os.path.join(cdir, fn)).read().split("\n") if l.strip() and not l.startswith("#")]
-                cases.append(dict(tok=lines, tags=["corpus:" + fn], kind="model"))
+                cases.append(dict(tok=lines, tags=["corpus:" + fn],
+                                  kind="implonly" if any(l.startswith("hsraw") for l in lines) else "model"))
     nmut = 700 if ctx.quick() else 8000
     nspec = 500 if ctx.quick() else 6000
     nhs = 250 if ctx.quick() else 3000
